@@ -14,14 +14,19 @@ pub fn backoff_next(min: u64, max: u64, has_last: bool, last: u64) -> u64 {
     if doubled > (max as u128) { max } else { doubled as u64 }
 }
 
-/// Same rule at the resolution of the configuration type (nanoseconds; a `Duration` is < 2^64 s = < 2^94 ns, so u128
-/// holds the mathematical double of any representable delay).
-pub fn backoff_next_ns(min: u128, max: u128, has_last: bool, last: u128) -> u128 {
+/// Same rule at the full resolution of the configuration type: a delay is a pair (whole seconds, nanoseconds < 10^9).
+/// Doubling is mathematical (carry from the nanoseconds into the seconds, seconds in u128 so nothing wraps); the result
+/// is capped at (max_s, max_n) in lexicographic = chronological order.
+pub fn backoff_next_sn(min_s: u64, min_n: u32, max_s: u64, max_n: u32, has_last: bool, last_s: u64, last_n: u32) -> (u64, u32) {
     if !has_last {
-        return min;
+        return (min_s, min_n);
     }
-    let doubled: u128 = (last * 2u128) as u128;
-    if doubled > max { max } else { doubled }
+    let n2: u32 = (last_n * 2u32) as u32; // last_n < 10^9, so below 2^31
+    let carry: u128 = if n2 >= 1_000_000_000u32 { 1u128 } else { 0u128 };
+    let dn: u32 = if n2 >= 1_000_000_000u32 { (n2 - 1_000_000_000u32) as u32 } else { n2 };
+    let ds: u128 = ((last_s as u128) * 2u128 + carry) as u128;
+    let exceeds: bool = ds > (max_s as u128) || (ds == (max_s as u128) && dn > max_n);
+    if exceeds { (max_s, max_n) } else { (ds as u64, dn) }
 }
 
 /// Delay of the k-th consecutive failure (1 <= k <= 64) in milliseconds, closed form: min(min * 2^(k-1), max).
